@@ -81,18 +81,35 @@ theorem unwindDoc_array (o : UnwindOpts) (d : Val) (x : Val) (xs out : List Val)
   have := unwindItems_ok o d 0 (x :: xs) out h
   simpa using this
 
-/-- missing, null or empty: dropped, or kept once when `preserveNullAndEmptyArrays` -/
+/-- missing, null or empty: dropped, or kept once when `preserveNullAndEmptyArrays` — with a null
+    index when one is asked for (`preserved`) -/
 theorem unwindDoc_missing (o : UnwindOpts) (d : Val) (hg : getByDot d o.path = .error .keyErr) :
-    unwindDoc o d = .ok (if o.preserve then [d] else []) := by
+    unwindDoc o d = if o.preserve then (preserved o d).map (fun nd => [nd]) else .ok [] := by
   unfold unwindDoc; rw [hg]
 
 theorem unwindDoc_null (o : UnwindOpts) (d : Val) (hg : getByDot d o.path = .ok .null) :
-    unwindDoc o d = .ok (if o.preserve then [d] else []) := by
+    unwindDoc o d = if o.preserve then (preserved o d).map (fun nd => [nd]) else .ok [] := by
   unfold unwindDoc; rw [hg]
 
 theorem unwindDoc_empty_drop (o : UnwindOpts) (d : Val) (hg : getByDot d o.path = .ok (.arr []))
     (hp : o.preserve = false) : unwindDoc o d = .ok [] := by
   unfold unwindDoc; rw [hg]; simp [hp]
+
+theorem unwindDoc_empty_keep (o : UnwindOpts) (d : Val) (hg : getByDot d o.path = .ok (.arr []))
+    (hp : o.preserve = true) :
+    unwindDoc o d = (match delByDot d o.path with
+      | .error e => .error e
+      | .ok nd => (preserved o nd).map (fun nd' => [nd'])) := by
+  unfold unwindDoc; rw [hg]; simp only [hp, if_true]
+  cases delByDot d o.path <;> rfl
+
+/-- without `includeArrayIndex` a preserved document is the document itself; with it, the
+    document with the index field set to null -/
+theorem preserved_none (path : String) (pres : Bool) (d : Val) :
+    preserved ⟨path, pres, none⟩ d = .ok d := rfl
+
+theorem preserved_some (path : String) (pres : Bool) (ix : String) (fs : Fields) :
+    preserved ⟨path, pres, some ix⟩ (.doc fs) = .ok (.doc (nestedSet fs (splitDots ix) .null)) := rfl
 
 /-- the item written at a top-level field: every other field is left alone -/
 theorem unwindItem_top (path : String) (pres : Bool) (fs : Fields) (idx : Option Nat) (item : Val)
